@@ -48,7 +48,7 @@
        about the caller's assets, not about the script's execution, and it needs no [isel]).
      interp_is_recursive: work-list evaluator = recursive evaluator, every ms and stack, no INoFuel.
    Each clause is additionally checked per run by the oracle (tools/props/c13.py). *)
-From Verif Require Import Spend InterpTxdataModel InterpTxdataProofs.
+From Verif Require Import Spend InterpTxdataModel InterpTxdataProofs InterpTxdataAll.
 From Verif Require Import Exec ExecTrace Ser Ast Types TypeCheck SatSpec TheoremA DenotSpec InterpModel InterpRefine InterpSound InterpWitness InterpComplete InterpDenot InterpMain InterpPolicy InterpGenuine.
 Local Open Scope N_scope.
 
@@ -253,22 +253,51 @@ Example interp_iff_nonvacuous :
 Proof. exact iff_nonvacuous. Qed.
 
 (* ------------------------------------------------------------------ from_txdata (src/interpreter/inner.rs)
-   Model: Ms/InterpTxdataModel.v ([from_txdata]); proofs: Proofs/InterpTxdataProofs.v.
+   Model: Ms/InterpTxdataModel.v ([from_txdata]); proofs: Proofs/InterpTxdataProofs.v, InterpTxdataAll.v.
    FULL STATEMENTS (all output types: bare, pk, pkh, wpkh, wsh, sh, sh-wpkh, sh-wsh, tr key / script path):
      from_txdata_sound: model = Ok(kind, script, stack, code) -> Spend.v's verify_spend on the same
        spk / scriptSig / witness is the execution of exactly that script (resp. CHECKSIG on that key) on
        exactly that stack;  from_txdata_complete_std: every spend verify_spend accepts, whose scriptSig holds
        only pushes / OP_1 and whose script the library decodes, is not refused;  composition with the
        evaluator's soundness.
-   PROVED here: the three statements for P2WSH (named _partial).  MISSING: the same case analysis for
-   sh, sh-wsh, bare, tr and the key-only kinds (the model covers them and the tie checks them on every
-   run; only the Coq theorems are restricted to P2WSH). *)
+   PROVED:
+     from_txdata_sound_partial: EVERY script-bearing arm (wsh, sh-wsh, sh, bare, tr script path), as an
+       equation verify_spend = spec_body (the kind's size bounds && execution of that script on that stack).
+       MISSING arms: the key-only kinds (p2pk, p2pkh, p2wpkh, sh-wpkh, tr key path): modelled and tied per run,
+       no Coq theorem against verify_spend_ext.
+     from_txdata_interp_sound: the composition for every script-bearing arm, instantiated with the
+       evaluator's soundness theorem (interp_sound_partial = InterpMain.interp_sound_env); the composition
+       only concerns script kinds, so it carries no _partial suffix.
+     from_txdata_complete_std_partial: P2WSH only.  MISSING arms: sh-wsh, sh, bare, tr, key-only kinds.
+   Taproot leaf version: from_txdata asks rust-bitcoin for the commitment of the control block only and never
+   tests that the leaf version is 0xc0; the specification's [co] includes that test.  The equation keeps
+   [co sb cb] as a factor ([cbok]); the composition assumes [f_commit fe sb cb = true -> co sb cb = true], i.e.
+   that a control block whose commitment verifies carries leaf version 0xc0 (true of every output a descriptor
+   builds; for another leaf version consensus does not run the script at all). *)
 Theorem from_txdata_sound_partial :
+  forall e fe co spk ssig wit sb t st code,
+    from_txdata e fe spk ssig wit = FOk (InScript sb t) st code ->
+    code = Some sb /\
+    exists cbok, (t = StTr -> exists cb, hd_error (rev wit) = Some cb /\ f_commit fe sb cb = true /\ cbok = co sb cb) /\
+                 verify_spend e co spk ssig wit = spec_body e t ssig sb (map conc st) cbok.
+Proof. exact from_txdata_sound_all. Qed.
+Print Assumptions from_txdata_sound_partial.
+
+(* the same, arm by arm, with the body spelled out *)
+Theorem from_txdata_sound_wsh_eq :
   forall e fe co spk ssig wit sb st code,
     from_txdata e fe spk ssig wit = FOk (InScript sb StWsh) st code ->
     code = Some sb /\ verify_spend e co spk ssig wit = wsh_body e sb (map conc st).
 Proof. exact from_txdata_sound_wsh. Qed.
-Print Assumptions from_txdata_sound_partial.
+Print Assumptions from_txdata_sound_wsh_eq.
+
+Theorem from_txdata_sound_tr_eq :
+  forall e fe co spk ssig wit sb st code,
+    from_txdata e fe spk ssig wit = FOk (InScript sb StTr) st code ->
+    exists cb, rev wit = cb :: sb :: map conc st /\ f_commit fe sb cb = true /\
+               verify_spend e co spk ssig wit = (co sb cb && tr_body e sb (map conc st)).
+Proof. exact from_txdata_sound_tr. Qed.
+Print Assumptions from_txdata_sound_tr_eq.
 
 Theorem from_txdata_complete_std_partial :
   forall e fe co spk ssig wit prog,
@@ -279,20 +308,22 @@ Theorem from_txdata_complete_std_partial :
 Proof. exact from_txdata_complete_wsh. Qed.
 Print Assumptions from_txdata_complete_std_partial.
 
-(* composition: [ev_accepts] stands for "the evaluator accepts on the stack it was handed"; the hypothesis
-   [ev_accepts -> accepts ..] is the conclusion of interp_sound_partial / interp_iff for s = enc ke m and
-   st = astack_of_items items (map conc st = rev items: conc_wit_stack) *)
-Theorem from_txdata_interp_sound_partial :
-  forall e fe co spk ssig wit sb st code (s : script) (ev_accepts : Prop),
-    from_txdata e fe spk ssig wit = FOk (InScript sb StWsh) st code ->
-    parse_script sb = Some s ->
-    (ev_accepts -> accepts (with_sv e SvWitnessV0) s (map conc st) = true) ->
-    N.leb (blen sb) 3600 = true -> N.leb (N.of_nat (length st)) 100 = true ->
-    forallb (fun it => N.leb (blen it) 80) (map conc st) = true -> N.leb (count_nonpush_ops s) 201 = true ->
-    ev_accepts ->
+(* model of from_txdata answers Ok(Script ..) and the evaluator model accepts the decoded miniscript on the
+   stack it was handed (hypotheses of interp_sound_partial, under the kind's signature version) and the kind's
+   size bounds hold  =>  the specification's verify_spend accepts.  Every script-bearing output type. *)
+Theorem from_txdata_interp_sound :
+  forall e fe co ke kp spk ssig wit sb t st code (m : ms) (ty0 : ty) (cs : list constr),
+    from_txdata e fe spk ssig wit = FOk (InScript sb t) st code ->
+    parse_script sb = Some (enc ke m) ->
+    keys_ok (with_sv e (sv_of t)) ke kp ->
+    type_of m = ROk ty0 -> c_base (t_corr ty0) = BB -> iwf (with_sv e (sv_of t)) m -> icover m ->
+    items_small (map conc st) ->
+    interp (with_sv e (sv_of t)) ke kp m st = IAccept cs ->
+    std_bounds t ssig sb (enc ke m) (map conc st) = true ->
+    (forall cb, f_commit fe sb cb = true -> co sb cb = true) ->
     verify_spend e co spk ssig wit = true.
-Proof. exact from_txdata_interp_wsh. Qed.
-Print Assumptions from_txdata_interp_sound_partial.
+Proof. exact from_txdata_interp_sound_all. Qed.
+Print Assumptions from_txdata_interp_sound.
 
 Example from_txdata_nonvacuous :
   from_txdata ftx_toy_env ftx_toy_fenv ftx_toy_spk [] [[5; 5]; [81]]
@@ -304,3 +335,4 @@ Example from_txdata_opn_expected_push :
   pushonly_stack [INum 2] [] = Some [[2]] /\ parse_script [82] = Some [INum 2] /\
   from_txdata ftx_toy_env ftx_toy_fenv (169 :: 20 :: repeat 9 20 ++ [135]) [82] [] = FErr FExpectedPush.
 Proof. exact ftx_opn_expected_push. Qed.
+
